@@ -609,6 +609,9 @@ pub fn dispatch(op: &str, args: &[&str]) -> Option<Res> {
             // the generator reads LOG2_TAB from base/src/math/log.rs and passes it packed; the model answers
             // with the constant its table theorem is about (the table is private and cfg(not(std)))
             "tab.log2" => Ok(arg(args, 0)?.to_string()),
+            // same for RSQRT_TAB / RCBRT_TAB of base/src/ring/root.rs (private): the generator passes the source
+            // table packed, the model answers with the table its mirrored routines use
+            "tab.rsqrt" | "tab.rcbrt" => Ok(arg(args, 0)?.to_string()),
             // answers of the harness built WITHOUT the `std` feature (obtained by the case generator), echoed
             // so that the differ compares them with the model of the no_std estimator; `~` stands for a space
             // `lb`: the same echo for the registered (std) build: only the enclosure of the true logarithm is
